@@ -113,9 +113,9 @@ macro "pyclose" : tactic =>
 
 end Py65.Proofs
 
+
 namespace Py65.Proofs
-/-- Close goals that are equalities of `setFlag` chains / Boolean flag values / small linear
-arithmetic, possibly under contradictory hypotheses. -/
+
 theorem setFlag_congr {a a' : Int} {k : Nat} {b b' : Bool} (h1 : a = a') (h2 : b = b') :
     Py65.Spec.setFlag a k b = Py65.Spec.setFlag a' k b' := by rw [h1, h2]
 
@@ -133,17 +133,23 @@ macro "bool_omega" : tactic =>
 
 /-- Fold configuration constants and widths definitionally (also inside `Decidable` instances,
 which `simp` does not rewrite). -/
-syntax "constfold" ("[" Lean.Parser.Tactic.simpLemma,* "]")? (Lean.Parser.Tactic.location)? : tactic
-macro_rules
-  | `(tactic| constfold $[[$ls,*]]? $[$loc]?) => do
-    let extra : Array (Lean.TSyntax `Lean.Parser.Tactic.simpLemma) := match ls with
-      | some l => l.getElems
-      | none => #[]
-    `(tactic| dsimp only [$extra,*, Py65.Spec.BM, Py65.Spec.AM, Py65.Spec.bitN, Py65.Spec.bitV,
+syntax (name := constfoldL) "constfold" "[" Lean.Parser.Tactic.simpLemma,* "]" (Lean.Parser.Tactic.location)? : tactic
+syntax (name := constfoldN) "constfold" (Lean.Parser.Tactic.location)? : tactic
+macro_rules (kind := constfoldL)
+  | `(tactic| constfold [$ls,*] $[$loc]?) =>
+    `(tactic| try dsimp only [$ls,*, Py65.Spec.BM, Py65.Spec.AM, Py65.Spec.bitN, Py65.Spec.bitV,
+      Py65.Spec.bitC, Py65.Spec.bitZ, Py65.Spec.bitI, Py65.Spec.bitD, Py65.Spec.bitB,
+      Py65.Spec.bitU, pyconst, Int.reducePow, Nat.reduceSub, Nat.reduceMul, Int.reduceNeg,
+      Int.reduceAdd, Int.reduceSub] $[$loc]?)
+macro_rules (kind := constfoldN)
+  | `(tactic| constfold $[$loc]?) =>
+    `(tactic| try dsimp only [Py65.Spec.BM, Py65.Spec.AM, Py65.Spec.bitN, Py65.Spec.bitV,
       Py65.Spec.bitC, Py65.Spec.bitZ, Py65.Spec.bitI, Py65.Spec.bitD, Py65.Spec.bitB,
       Py65.Spec.bitU, pyconst, Int.reducePow, Nat.reduceSub, Nat.reduceMul, Int.reduceNeg,
       Int.reduceAdd, Int.reduceSub] $[$loc]?)
 
+/-- Close goals that are equalities of `setFlag` chains / Boolean flag values / small linear
+arithmetic, possibly under contradictory hypotheses. -/
 macro "flag_close" : tactic =>
   `(tactic| (
     try simp only [Py65.Spec.flag, Py65.Spec.eqB, Py65.Spec.geB, Py65.Spec.ltB, decide_eq_true_eq, decide_eq_false_iff_not, Bool.not_eq_true,
